@@ -18,6 +18,7 @@ import (
 	"path/filepath"
 	"runtime/debug"
 	"sort"
+	"strconv"
 	"strings"
 	"time"
 )
@@ -50,18 +51,19 @@ var props = map[string]*Prop{}
 func register(p *Prop) { props[p.ID] = p }
 
 type result struct {
-	Property    string                 `json:"property"`
-	Tier        string                 `json:"tier"`
-	Seed        int64                  `json:"seed"`
-	Evaluations int                    `json:"evaluations"`
-	Distinct    int                    `json:"distinct_nontrivial"`
-	Rule        string                 `json:"rule"`
-	Histogram   map[string]int         `json:"histogram"`
-	Samples     []map[string]string    `json:"samples"`
-	Violations  []Violation            `json:"violations"`
-	ViolationCount int                  `json:"violation_count"`
-	Extra       map[string]interface{} `json:"extra,omitempty"`
-	WallS       float64                `json:"wall_s"`
+	Property       string                 `json:"property"`
+	Tier           string                 `json:"tier"`
+	Seed           int64                  `json:"seed"`
+	Evaluations    int                    `json:"evaluations"`
+	Distinct       int                    `json:"distinct_nontrivial"`
+	Rule           string                 `json:"rule"`
+	Histogram      map[string]int         `json:"histogram"`
+	Samples        []map[string]string    `json:"samples"`
+	Violations     []Violation            `json:"violations"`
+	ViolationCount int                    `json:"violation_count"`
+	StoppedEarly   string                 `json:"stopped_early,omitempty"`
+	Extra          map[string]interface{} `json:"extra,omitempty"`
+	WallS          float64                `json:"wall_s"`
 }
 
 func safeExec(p *Prop, op string) (out string, v *Violation) {
@@ -138,9 +140,21 @@ func run(p *Prop, tier string, seed int64, outDir, corpusDir string) {
 	sampleEvery := 1
 	lastOp, _ := os.Create(filepath.Join(outDir, "last-op.txt"))
 	slow := 0
+	// a search started by the quick tier after an obligation broke is time-boxed: it stops generating once a
+	// failing input is in hand and the box is used up, and in any case at twice the box
+	searchBox := time.Duration(0)
+	if s, err := strconv.Atoi(os.Getenv("VERIF_SEARCH_DEADLINE_S")); err == nil && s > 0 {
+		searchBox = time.Duration(s) * time.Second
+	}
 	handle := func(op string) {
 		if res.ViolationCount >= 25 && slow >= 25 {
 			return // enough failing inputs found, and they are slow (deadline based): stop early
+		}
+		if searchBox > 0 {
+			if el := time.Since(start); (el > searchBox && res.ViolationCount > 0) || el > 2*searchBox {
+				res.StoppedEarly = fmt.Sprintf("search time box of %s used up after %d cases", searchBox, res.Evaluations)
+				return
+			}
 		}
 		res.Evaluations++
 		opStart := time.Now()
